@@ -666,6 +666,107 @@ def _():
     return ok, "Pocklington certificates verified for " + ", ".join(done + extra)
 
 
+# ---- irreducibility of the modulus polynomials of the real extension classes (Rabin's test) ---------------------------
+def _pz_trim(a):
+    while a and a[-1] == 0:
+        a = a[:-1]
+    return a
+
+
+def _pz_mod(a, f, p):
+    """remainder of a by f over Z/p (f's leading coefficient is a unit)"""
+    a = [c % p for c in a]
+    f = _pz_trim([c % p for c in f])
+    il = pow(f[-1], -1, p)
+    while len(_pz_trim(a)) >= len(f):
+        a = _pz_trim(a)
+        k = a[-1] * il % p
+        sh = len(a) - len(f)
+        for i, c in enumerate(f):
+            a[sh + i] = (a[sh + i] - k * c) % p
+    return _pz_trim(a)
+
+
+def _pz_mulmod(a, b, f, p):
+    out = [0] * (len(a) + len(b))
+    for i, x in enumerate(a):
+        if x:
+            for j, y in enumerate(b):
+                out[i + j] = (out[i + j] + x * y) % p
+    return _pz_mod(out, f, p)
+
+
+def _pz_powmod(a, e, f, p):
+    r = [1]
+    while e:
+        if e & 1:
+            r = _pz_mulmod(r, a, f, p)
+        a = _pz_mulmod(a, a, f, p)
+        e >>= 1
+    return r
+
+
+def _pz_gcd(a, b, p):
+    a, b = _pz_trim([c % p for c in a]), _pz_trim([c % p for c in b])
+    while b:
+        a, b = b, _pz_mod(a, b, p)
+    return a
+
+
+def _rabin_irreducible(f, p):
+    """Rabin 1980: monic f of degree n over GF(p), p prime, is irreducible iff x^(p^n) = x (mod f) and
+    gcd(x^(p^(n/q)) - x, f) = 1 for every prime q | n"""
+    n = len(f) - 1
+    if n < 1 or f[-1] % p != 1:
+        return False
+    x = [0, 1]
+
+    def frob_minus_x(k):
+        h = _pz_powmod(x, p ** k, f, p)
+        h = h + [0] * (2 - len(h))
+        h[1] = (h[1] - 1) % p
+        return _pz_trim(h)
+    for q in (q for q in range(2, n + 1) if n % q == 0 and all(q % t for t in range(2, q))):
+        if len(_pz_gcd(f, frob_minus_x(n // q), p)) != 1:
+            return False
+    return not frob_minus_x(n)
+
+
+@evaluator("fields.modulus-irreducible")
+def _():
+    """the class invariant 'the modulus polynomial is irreducible over Z/p' for the eight real extension classes: Rabin's
+    irreducibility test (own 40-line polynomial arithmetic over Z/p, independent of the field classes) on the modulus
+    coefficients and prime read from the classes themselves; the self-test shows the test is not vacuous"""
+    F = M("py_ecc.fields")
+    # self-test of the procedure on known answers over small fields
+    st = (_rabin_irreducible([1, 0, 1], 3) and not _rabin_irreducible([1, 0, 1], 5) and _rabin_irreducible([1, 1, 0, 1], 2)
+          and not _rabin_irreducible([1, 0, 0, 1], 2) and not _rabin_irreducible([2, 0, 3, 0, 1], 7)
+          and _rabin_irreducible([1, 1, 0, 0, 1], 2) and not _rabin_irreducible([1, 0, 1, 0, 1], 2))
+    ok = st
+    seen = {}
+    bad = []
+    for opt in ("", "optimized_"):
+        for curve in ("bn128", "bls12_381"):
+            for suffix, attr, d in (("FQ2", "FQ2_MODULUS_COEFFS", 2), ("FQ12", "FQ12_MODULUS_COEFFS", 12)):
+                cls = getattr(F, f"{opt}{curve}_{suffix}")
+                p = int(cls.field_modulus)
+                co = tuple(int(c) for c in getattr(cls, attr))
+                good = len(co) == d and cls.degree == d
+                # what the arithmetic really reduces by: the instance attribute set by __init__
+                inst = cls([1] + [0] * (d - 1))
+                good = good and tuple(int(c) for c in inst.modulus_coeffs) == co and inst.degree == d
+                key = (p, co)
+                if good and key not in seen:
+                    seen[key] = _rabin_irreducible(list(co) + [1], p)
+                good = good and seen.get(key, False)
+                if not good:
+                    bad.append(f"{opt}{curve}_{suffix}")
+                ok = ok and good
+    return ok, (f"Rabin's test (self-test {'ok' if st else 'FAILED'}): x^2+1 and the degree-12 moduli of alt_bn128 and BLS12-381 are "
+                f"irreducible over their prime fields ({len(seen)} distinct (p, modulus) pairs, 8 classes)"
+                + ("" if ok else " — fails for: " + ", ".join(bad)))
+
+
 @evaluator("fields.class-table")
 def _():
     """the sixteen concrete field classes of py_ecc.fields carry the prime, the modulus coefficients and the degree of their
